@@ -295,6 +295,7 @@ type site struct {
 	indent string
 	inDef  bool     // inside a decorator definition
 	caps   []string // capture groups visible here
+	after  bool     // the site follows a `stop` in the same block
 }
 
 type program struct {
@@ -306,7 +307,7 @@ type program struct {
 
 func (p *program) add(ind, s string) { p.lines = append(p.lines, ind+s) }
 func (p *program) hole(name, ind string, inDef bool, caps []string) {
-	p.sites = append(p.sites, site{name, ind, inDef, append([]string{}, caps...)})
+	p.sites = append(p.sites, site{name, ind, inDef, append([]string{}, caps...), strings.HasPrefix(name, "after-stop")})
 	p.lines = append(p.lines, "\x00"+strconv.Itoa(len(p.sites)-1))
 }
 
@@ -355,6 +356,8 @@ func genProgram(r *vlib.Rand, id int) *program {
 		p.caps = append(p.caps, pfx)
 		p.hole("decorator-body", "    ", true, []string{pfx})
 		p.add("    ", "next")
+		p.add("    ", "stop")
+		p.hole("after-stop-decorator-body", "    ", true, []string{pfx})
 		p.add("  ", "}")
 		p.add("", "}")
 	}
@@ -370,19 +373,27 @@ func genProgram(r *vlib.Rand, id int) *program {
 		p.add("    ", "/z/ {")
 		p.hole("nested-block-3", "      ", false, []string{"1", n1})
 		p.add("      ", m2+"[$1, $"+n1+"]++")
+		p.add("      ", "stop")
+		p.hole("after-stop-nested-block-3", "      ", false, []string{"1", n1})
 		p.add("    ", "}")
 	} else {
 		p.add("    ", m2+"[$1, $"+n1+"]++")
+		p.add("    ", "stop")
+		p.hole("after-stop-nested-block", "    ", false, []string{"1", n1})
 	}
 	if useElse {
 		p.add("  ", "} else {")
 		p.hole("else-block", "    ", false, []string{"1", n1})
 		p.add("    ", m1+"[$1]++")
+		p.add("    ", "stop")
+		p.hole("after-stop-else-block", "    ", false, []string{"1", n1})
 		p.add("  ", "}")
 	} else {
 		p.add("  ", "}")
 		p.add("  ", m1+"[$1]++")
 	}
+	p.add("  ", "stop")
+	p.hole("after-stop-pattern-block", "  ", false, []string{"1"})
 	p.add("", "}")
 	v := "v" + sfx
 	if useDeco {
@@ -414,6 +425,8 @@ func genProgram(r *vlib.Rand, id int) *program {
 		p.add("", "}")
 	}
 	p.hole("top-level-late", "", false, nil)
+	p.add("", "stop")
+	p.hole("after-stop-top-level", "", false, nil)
 	// names the fragments refer to
 	p.lines = append([]string{}, p.lines...)
 	progNames[p] = names{c, g, m1, m2, t}
@@ -778,7 +791,7 @@ func main() {
 	}
 	out := vlib.NewOut(a, "From V Require Import Corr.Run_C24.", "c24case", 150)
 	rng := vlib.NewRand(a.Seed)
-	nprog := 4
+	nprog := 3
 	perSite := 14
 	if a.Thorough() {
 		nprog = 40
@@ -808,6 +821,9 @@ func main() {
 				take := len(l)
 				if !a.Thorough() && take > 2 {
 					take = 2
+				}
+				if !a.Thorough() && s.after {
+					take = 1
 				}
 				if take > perSite {
 					take = perSite
